@@ -7,6 +7,7 @@ import (
 	"encoding/json"
 	"fmt"
 	"net/http"
+	"strconv"
 	"strings"
 	"unicode"
 )
@@ -305,6 +306,48 @@ func (g *G) genFaithful(id string) *History {
 		}
 		h.Ops = append(h.Ops, Op{Op: "req", AtNs: at, Method: "GET", URL: url, Hdr: rh,
 			Replies: []Reply{{Status: 200, Hdr: Hdr{{"Date", dateAt(at, 0)}}, Body: "second", BodyFail: -1}}})
+	}
+	return h
+}
+
+// C16: groups of requests issued concurrently on one transport (same and different URIs and
+// variants, GETs and unsafe methods), including while background revalidations run.
+func (g *G) genConcurrent(id string) *History {
+	h := &History{ID: id, Prop: g.prop, Class: "concurrent", Backend: pick(g, "mem", "mem", "fs"), Logger: "discard", Concurrent: true}
+	urls := []string{"http://a.test/c1", "http://a.test/c2", "http://A.test:80/c1"}
+	vary := pick(g, "", "X-A", "X-A, X-B")
+	at := int64(0)
+	ngroups := 2 + g.r.Intn(3)
+	for gi := 0; gi < ngroups; gi++ {
+		size := 1 + g.r.Intn(4)
+		for j := 0; j < size; j++ {
+			url := pick(g, urls...)
+			method := "GET"
+			if g.chance(0.12) {
+				method = pick(g, "POST", "DELETE", "PUT")
+			}
+			var hdr Hdr
+			if vary != "" {
+				hdr = g.reqHeaders([]string{"X-A", "X-B"})
+			}
+			var rp Reply
+			if method == "GET" {
+				hd := Hdr{{"Date", dateAt(at, 0)}, {"Cache-Control", pick(g, "max-age=5, stale-while-revalidate=600", "max-age=600", "max-age=0, stale-while-revalidate=600", "no-cache")}}
+				if g.chance(0.7) {
+					hd = append(hd, [2]string{"Etag", `"c"`})
+				}
+				hd = append(hd, varyHdr(vary)...)
+				rp = Reply{Status: 200, Hdr: hd, Body: "c", BodyFail: -1}
+				if gi > 0 && g.chance(0.4) {
+					rp = Reply{Status: 304, Hdr: Hdr{{"Date", dateAt(at, 0)}, {"X-New", strconv.Itoa(gi)}}, BodyFail: -1}
+				}
+			} else {
+				rp = Reply{Status: 204, Hdr: Hdr{{"Date", dateAt(at, 0)}}, BodyFail: -1}
+			}
+			rp.DelayNs = pick(g, int64(0), 0, 0, 1, sec/2)
+			h.Ops = append(h.Ops, Op{Op: "req", AtNs: at, Method: method, URL: url, Hdr: hdr, Replies: []Reply{rp}})
+		}
+		at += pick(g, int64(1), 10, 30) * sec
 	}
 	return h
 }
